@@ -32,7 +32,9 @@ CFG = {'long_max_vertices': 150,   # the exact oracle is quadratic in the vertex
                    "GeoProofs/Lemmas/RELM3Simple.lean", "GeoProofs/Lemmas/RELM3LineString.lean", "GeoProofs/Lemmas/RELM3Nodes.lean",
                    "GeoProofs/Lemmas/RELM3Multi.lean", "GeoProofs/Lemmas/RELM3Dom.lean", "GeoProofs/Lemmas/RELM3Coll.lean",
                    "GeoProofs/Lemmas/RELM3Areal.lean", "GeoProofs/Lemmas/RELM3Star.lean", "GeoProofs/Lemmas/RELM3ExtNodes.lean",
-                   "GeoProofs/Lemmas/RELM3Ext.lean", "GeoProofs/Lemmas/RELM3ExtSpec.lean", "GeoProofs/Lemmas/RELM3Full.lean"],
+                   "GeoProofs/Lemmas/RELM3Ext.lean", "GeoProofs/Lemmas/RELM3ExtSpec.lean", "GeoProofs/Lemmas/RELM3Full.lean",
+                   "GeoProofs/Lemmas/RELM3ArealExt.lean", "GeoProofs/Lemmas/RELM3ArealFull.lean", "GeoProofs/Lemmas/RELM3Poly.lean",
+                   "GeoProofs/Lemmas/RELM3MPoly.lean"],
     "rule": "ordered pairs (A, B) over all 10 geometry types (Geometry enum on both sides) drawn from one shared 3..6 grid: polyomino polygons with "
             "holes (incl. holes tangent to the shell), star polygons, rectangles with holes, corner-touching multipolygons, self-avoiding lattice "
             "paths, multi line strings sharing end points (mod-2 rule), half-grid points, same-dimension collections; each case also relates the "
@@ -54,7 +56,8 @@ CFG = {'long_max_vertices': 150,   # the exact oracle is quadratic in the vertex
         "list-backed iterators (next = head, find = dropWhile of the negated predicate), unreachable!() arms = Empty (dead code; panics are seen by the harness)",
         "spec adequacy (S1): the arrangement atoms (vertices, elementary-edge midpoints, two infinitesimally displaced face samples per edge) meet "
         "every cell of the arrangement of A ∪ B — not proved; the spec is an independent definition (own winding computation, symbolic infinitesimals)",
-        "spec adequacy (S2): for a valid ring, non-zero winding number ⇔ topological interior (Jordan)",
+        "spec adequacy (S2): for a valid ring, non-zero winding number ⇔ topological interior (Jordan) — individual consequences are theorems "
+        "(a valid polygon has an interior face sample in every arrangement: polygon_interior_sample_valid)",
         "interior connectedness of polygons is not part of the executable validity predicate",
         "model of the implementation (RelateImpl*.lean, GeomGraph.lean): hand-written from relate_operation.rs, edge_end_builder.rs, geomgraph/*.rs, "
         "geomgraph/index/*.rs; checked against the real code on every run (C01.impl), not generated from it. It tests all segment pairs where the code asks "
@@ -203,12 +206,24 @@ MANIFEST = {
             "path for every linear B of the domain with an edge, collections included (relateImpl_point_linear_graph_eq_spec), on both paths for B a Line, "
             "LineString or MultiLineString (relateImpl_point_lineType_eq_spec_partial), and for the total function in both operand orders, relate never "
             "panicking there (relateImpl_point_lineType_eq_spec_total_partial) — the first full-matrix equalities beyond point-like operands. "
-            "Open there: collections mixing kinds (in the domain only with empty members of another kind), "
-            "and the Exterior row / column for areal B (side labels of area edge bundles; an interior face sample of a valid polygon). The disjoint-envelope shortcut on the whole validity domain, polygons with holes "
+            "(13) Areal B: every edge of B is a ring edge area(OnBoundary, l, r) with {l, r} = {Inside, Outside}, isolated from the point, contributing "
+            "(1,E,B), (2,E,I), (2,E,E); the bundles of the stars get full area labels whose sides are Inside / Outside (compute_label_side returns nothing "
+            "else), nothing for fill-in: EI = 2, EB = 1 (relateImpl_point_exterior_row_ringEdges, any arithmetic, B valid or not); on the specification side a "
+            "row maximum of dimension >= 1 is attained in the column Exterior against a point operand, so EI = dim B and EB = dim dB from DimsSpec "
+            "(relateSpec_point_exterior_row_of_dimsSpec). DimsSpec itself for EVERY valid polygon: HasDimensions = 2 for a simple shell (polyDims_valid) and an "
+            "interior face sample in every arrangement from C02X valid_side_inside (polygon_interior_sample_valid) — S2 for valid polygons is now a theorem — "
+            "and for every valid MultiPolygon and the empty ones (dimsSpec_dom_noCollection_partial): the disjoint-envelope shortcut returns the "
+            "specification's matrix for ALL operands of the domain that are not collections, no hypothesis left "
+            "(relateImpl_disjoint_eq_spec_noCollection_partial). Together: relateImpl (Point p) B = relateSpec (Point p) B and relateImpl B (Point p) = "
+            "relateSpec B (Point p), whole matrix, total function, for B a Line, LineString, MultiLineString, Polygon (holes touching the shell included), "
+            "MultiPolygon (touching members included), Rect or Triangle of the domain, no further hypothesis "
+            "(relateImpl_point_eq_spec_extendedType_partial). "
+            "Open there: B a MultiPoint against a Point (Exterior row), GeometryCollections (rows proved for one-kind collections; DimsSpec of a collection "
+            "and 'an envelope implies an edge' missing; collections mixing kinds only occur with empty members). The disjoint-envelope shortcut on the whole validity domain, polygons with holes "
             "included: 'hole coordinates in the reported rectangle' and 'rings closed' follow from validity (C02X dom_facts), so relateImpl = relateSpec "
             "for domain operands with non-intersecting rectangles wherever HasDimensions agrees with the specification "
             "(relateImpl_disjoint_eq_spec_dom_partial; remaining hypothesis DimsSpec: interior face sample of a valid polygon, collections). "
-            "Not proved: relateImpl = relateSpec for Line x Line, LineString x LineString and beyond (needs the full specification matrix of two "
+            "Not proved: relateImpl = relateSpec when neither operand is a point: Line x Line, LineString x LineString and beyond (needs the full specification matrix of two "
             "segments beyond the cell II and an order-independent evaluation of the node map / stars for symbolic coordinates).",
     "note": "Trusted: Lean kernel + audited axioms; the harness/generators (sampling); spec adequacy S1/S2. Defects found by this check and repaired in /repo: "
             "Triangle vertical edge (29720670), MultiPolygon shared vertex (5f41a6da), MultiLineString boundary_dimensions mod-2 (17c66966). The algorithm of "
